@@ -187,6 +187,32 @@ def merge (h from_ : Hist) : Hist × Int :=
       | some h' => (h', acc.2)
       | none => (acc.1, acc.2 + p.countAt)) (h, 0)
 
+/-! ### windowed histograms (window.go) -/
+
+/-- `WindowedHistogram`: `n` histograms of one configuration, the index of the current one
+(`idx % n`), and the fresh histogram `h0` that `Reset` re-establishes -/
+structure Win where
+  h0 : Hist
+  n : Nat
+  hs : List Hist
+  idx : Nat
+  deriving Repr
+
+/-- `NewWindowed` (its constructor rotates once: index 0, already empty) -/
+def Win.new (n : Nat) (h0 : Hist) : Win := { h0 := h0, n := n, hs := List.replicate n h0, idx := 0 }
+
+/-- `Rotate`: advance and reset the histogram that becomes current -/
+def Win.rotate (w : Win) : Win :=
+  { w with idx := w.idx + 1, hs := w.hs.modify ((w.idx + 1) % w.n) (fun _ => w.h0) }
+
+/-- `Current.RecordValue(v)` (a rejected value changes nothing) -/
+def Win.record (w : Win) (v : Int) : Win :=
+  { w with hs := w.hs.modify (w.idx % w.n) (fun h => (recordValue h v).getD h) }
+
+/-- `Merge`: reset the accumulator and merge every section into it; returns the total dropped -/
+def Win.merge (w : Win) : Hist × Int :=
+  w.hs.foldl (fun (acc : Hist × Int) h => let r := Ftdc.Hdr.merge acc.1 h; (r.1, acc.2 + r.2)) (w.h0, 0)
+
 structure Snapshot where
   lowest : Int
   highest : Nat
